@@ -73,7 +73,12 @@ class CodeHooks(S.StatusHooks):
             return None
         ty = dest_ty(self.cr, st, term)
         if is_result_of(ty, is_i32):
-            outs = [(("enum", ai.RESULT, 0, (("int", c),)), mon.add("codes", c)) for c in self.codes]
+            codes = self.codes
+            if decl.endswith("StructuredReporter::report") and self.layer == "validate" and "Err" in mon.get("parse", frozenset()):
+                # the reporter was constructed with exit_code 5 (R-C06-folds:StructuredEvaluator::evaluate::closure) and its fold keeps an
+                # initial 5 non-zero and != 19 (R-C06-folds:*Reporter::report:init=5): it cannot answer 0 or 19 here
+                codes = (5,)
+            outs = [(("enum", ai.RESULT, 0, (("int", c),)), mon.add("codes", c)) for c in codes]
             outs.append((("enum", ai.RESULT, 1, (("sym", "CODE_ERR"),)), mon.add("codes", "Err")))
             return outs
         if ty is not None and is_i32(ty) and callee.get("local") and "get_exit_code" in callee.get("key", "") and callee.get("key") not in self.inline_keys:
@@ -399,122 +404,71 @@ def reporter_folds(ctx, cr):
                 fold_fn(ctx, cr, key, "validate", args=[("ref", ("X", "SELF"), ())], ext={"SELF": ("enum", ADT, 0, tuple(fields))}, init=init, min_paths=2)
     key = "<commands::reporters::JunitReporter as commands::reporters::validate::structured::StructuredReporter>::report"
     ADT = "commands::reporters::JunitReporter"
-    if key not in cr.fns or ADT not in cr.adts:
+    TCS = "commands::reporters::TestCaseStatus"
+    TS = "commands::reporters::TestSuite"
+    if key not in cr.fns or ADT not in cr.adts or TCS not in cr.adts or TS not in cr.adts:
         ctx.lost(rule, rule + ":JunitReporter::report", key)
         return
     fs = [f["name"] for f in cr.adts[ADT]["variants"][0]["fields"]]
     idx = fs.index("exit_code")
-    # the per-case counters are updated inside a closure run by try_fold: decide the closure, then the
-    # use of the totals (errors dominate failures) in report itself
-    ck = key + "::{closure#0}"
-    TCS = "commands::reporters::TestCaseStatus"
-    if ck not in cr.fns or TCS not in cr.adts:
-        ctx.lost(rule, rule + ":JunitReporter::report::closure", ck)
-    else:
-        names = [v["name"] for v in cr.adts[TCS]["variants"]]
-        rows = {}
-
-        class HC(CodeHooks):
-            def extra_call(self, a, st, term, callee, args):
-                if callee.get("key", "").endswith("reporters::get_test_case"):
-                    outs = []
-                    for vi, n in enumerate(names):
-                        nf = len(self.cr.adts[TCS]["variants"][vi]["fields"])
-                        stv = ("enum", TCS, vi, tuple(("sym", "P%d" % i) for i in range(nf)))
-                        tc = ("enum", "commands::reporters::TestCase", 0, (("sym", "id"), ("sym", "name"), ("sym", "time"), stv))
-                        outs.append((("enum", ai.RESULT, 0, (tc,)), st.mon.set(tc=n)))
-                    outs.append((("enum", ai.RESULT, 1, (("sym", "TC_ERR"),)), st.mon.set(tc="Err")))
-                    return outs
-                return None
-
-            def ret(self, a, st, v):
-                env = a.deep(st, st.ext.get("ENV"))
-                self.results.append((v, st.mon, (a.deep(st, st.ext.get("FAILURES")), a.deep(st, st.ext.get("ERRORS")), a.deep(st, st.ext.get("TESTS")))))
-        tcf = [f["name"] for f in cr.adts["commands::reporters::TestCase"]["variants"][0]["fields"]]
-        f = cr.fns[ck]
-        # closure upvars: which captured reference is which counter -> from the debug names
-        upnames = [n for n, p in f.get("names", []) if not isinstance(p, int) and M.place_local(p) == 1]
-        ups = {}
-        for n, p in f.get("names", []):
-            if not isinstance(p, int) and M.place_local(p) == 1:
-                for pr in M.place_projs(p):
-                    if isinstance(pr, list) and pr[0] == "f":
-                        ups[n] = pr[1]
-                        break
-        need = ("failures", "errors", "tests")
-        if tcf != ["id", "name", "time", "status"] or not all(n in ups for n in need):
-            ctx.lost(rule, rule + ":JunitReporter::report::closure-shape", "TestCase fields %s / captured %s" % (tcf, sorted(ups)))
-        else:
-            nup = max(ups.values()) + 1
-            upv = [("sym", "UP%d" % i) for i in range(nup)]
-            upv[ups["failures"]] = ("ref", ("X", "FAILURES"), ())
-            upv[ups["errors"]] = ("ref", ("X", "ERRORS"), ())
-            upv[ups["tests"]] = ("ref", ("X", "TESTS"), ())
-            env = ("closure", ck, tuple(upv))
-            hc = HC(cr, "validate")
-            a = ai.AI(cr, hc)
-            try:
-                a.run(ck, args=[("ref", ("X", "ENV"), ()), ("sym", "ACC"), ("sym", "ITEM")], mon=Mon(),
-                      ext={"ENV": env, "FAILURES": ("int", 0), "ERRORS": ("int", 0), "TESTS": ("int", 0)})
-                ctx.states += a.n_states
-                for v, mon, cnt in hc.results:
-                    if v[0] == "enum" and v[1] == ai.RESULT and v[2] == 0:
-                        rows.setdefault(mon.get("tc"), set()).add(tuple(ai.fmt_val(c) for c in cnt))
-                spec = {"Pass": ("0", "0", "1"), "Skip": ("0", "0", "1"), "Fail": ("1", "0", "1"), "Error": ("0", "1", "1")}
-                for n, exp in spec.items():
-                    ctx.ob(rule, "%s:JunitReporter::report::closure:%s" % (rule, n), rows.get(n) == {exp},
-                           "test case %s must count (failures, errors, tests) = %s, got %s" % (n, exp, sorted(rows.get(n, set()))), fn=f)
-            except ai.Undecided as e:
-                ctx.ob(rule, rule + ":JunitReporter::report::closure", False, "undecided %s" % e, fn=f)
-    # report: the per-file counters (set by the closure decided above) are summed over all data files and the totals
-    # drive update_exit_code; errors dominate failures.  try_fold is modelled by its effect on the captured counters.
-    cf = cr.fns.get(ck)
-    cups = {}
-    if cf:
-        for n, p in cf.get("names", []):
-            if not isinstance(p, int) and M.place_local(p) == 1:
-                for pr in M.place_projs(p):
-                    if isinstance(pr, list) and pr[0] == "f":
-                        cups[n] = pr[1]
-                        break
+    names = [v["name"] for v in cr.adts[TCS]["variants"]]
+    tsf = [x["name"] for x in cr.adts[TS]["variants"][0]["fields"]]
+    tcf = [f["name"] for f in cr.adts["commands::reporters::TestCase"]["variants"][0]["fields"]]
+    # The whole of report() is interpreted — its per-rule step whether written as a try_fold closure or as a `for` body (engine model of
+    # try_fold) — with one data file and one rule: get_test_case is a source over the four test-case kinds (or an error).  Decided:
+    #   * the per-file suite counts (errors, failures) = (1,0) for an Error case, (0,1) for Fail, (0,0) for Pass/Skip;
+    #   * the exit code: an Error case gives 5; a Fail case gives 19 unless the reporter started at 5; otherwise the initial code stays.
+    suites = {}
     for init in (0, 5):
         fields = [("sym", "F%d" % i) for i in range(len(fs))]
         fields[idx] = ("int", init)
         outs = []
 
         class HR(CodeHooks):
-            def extra_call(self, a, st, term, callee, args):
-                if callee.get("key", "").endswith("JunitReport::serialize"):
-                    return [(("enum", ai.RESULT, 0, (("tuple", ()),)), st.mon), (("enum", ai.RESULT, 1, (("sym", "SER_ERR"),)), st.mon)]
-                clos = [a.resolve(st, x) for x in args if a.resolve(st, x)[0] == "closure" and a.resolve(st, x)[1] == ck]
-                if clos and "failures" in cups and "errors" in cups:
-                    cv = clos[0]
-                    outs2 = []
-                    for fv, ftag in ((("int", 0), False), (("ge", 1), True)):
-                        for ev, etag in ((("int", 0), False), (("ge", 1), True)):
-                            outs2.append(("SET", fv, ev, st.mon.set(any_fail=bool(st.mon.get("any_fail")) or ftag, any_err=bool(st.mon.get("any_err")) or etag)))
-                    res = []
-                    for _, fv, ev, m in outs2:
-                        res.append((("enum", ai.RESULT, 0, (("sym", "CASES:%s:%s" % (fv, ev)),)), m.set(pending=(fv, ev))))
-                    res.append((("enum", ai.RESULT, 1, (("sym", "TC_ERR"),)), st.mon.add("codes", "Err")))
-                    self._clos = cv
-                    return res
-                return None
+            def inline(self, a, st, k, fn):
+                return k.startswith(key + "::{closure") or CodeHooks.inline(self, a, st, k, fn)
 
-            def constrained(self, a, st, sid, val):
-                CodeHooks.constrained(self, a, st, sid, val)
+            def extra_call(self, a, st, term, callee, args):
+                decl = M.norm_path(callee.get("decl", ""))
+                mon = st.mon
+                if callee.get("key", "").endswith("JunitReport::serialize"):
+                    return [(("enum", ai.RESULT, 0, (("tuple", ()),)), mon), (("enum", ai.RESULT, 1, (("sym", "SER_ERR"),)), mon)]
+                if decl == "std::iter::Iterator::next" and term.get("to") is not None:
+                    site = a.site(st)
+                    outer = mon.get("outer") or site
+                    # two data files (so that what is carried from one file to the next is observed), one rule per file in total
+                    if mon.get("it:" + site, 0) >= (2 if site == outer else 1):
+                        return [(("enum", ai.OPTION, 0, ()), mon)]
+                    mon = mon.set(outer=outer)
+                    if site == outer:
+                        mon = mon.set(tc=None)          # a new data file: its suite counts only its own cases
+                    ty, _ = M.place_ty(self.cr, None, term["dest"], st.top.body)
+                    inner = ty.args()[0] if ty is not None and ty.args() else None
+                    item = a.sym(st, site + ":item")
+                    if inner is not None and inner.kind == "tuple":
+                        item = ("tuple", tuple(a.sym(st, "%s:item.%d" % (site, i)) for i in range(len(inner.t.get("e", [])))))
+                    return [(("enum", ai.OPTION, 1, (item,)), mon.set(**{"it:" + site: mon.get("it:" + site, 0) + 1})), (("enum", ai.OPTION, 0, ()), mon)]
+                if callee.get("key", "").endswith("reporters::get_test_case"):
+                    res = []
+                    for vi, n in enumerate(names):
+                        nf = len(self.cr.adts[TCS]["variants"][vi]["fields"])
+                        stv = ("enum", TCS, vi, tuple(("sym", "P%d" % i) for i in range(nf)))
+                        vals = {"status": stv}
+                        tc = ("enum", "commands::reporters::TestCase", 0, tuple(vals.get(x, ("sym", x)) for x in tcf))
+                        res.append((("enum", ai.RESULT, 0, (tc,)), mon.set(tc=n, any_fail=bool(mon.get("any_fail")) or n == "Fail", any_err=bool(mon.get("any_err")) or n == "Error")))
+                    res.append((("enum", ai.RESULT, 1, (("sym", "TC_ERR"),)), mon.add("codes", "Err")))
+                    return res
+                return CodeHooks.extra_call(self, a, st, term, callee, args)
 
             def stmt(self, a, st, frame, s_):
-                # apply the pending counter effect of the last try_fold once its result has been bound
-                pend = st.mon.get("pending") if st.mon is not None else None
-                if pend and getattr(self, "_clos", None) is not None:
-                    cv = self._clos
-                    fref = a.resolve(st, cv[2][cups["failures"]])
-                    eref = a.resolve(st, cv[2][cups["errors"]])
-                    if fref[0] == "ref" and eref[0] == "ref":
-                        a.write_ref(st, fref, pend[0])
-                        a.write_ref(st, eref, pend[1])
-                    st.mon = st.mon.set(pending=None)
+                rv = s_.get("rv")
+                if rv and rv.get("r") == "agg" and rv.get("adt") == TS and frame is st.frames[0]:
+                    ev = a.resolve(st, a.operand(st, frame, rv["ops"][tsf.index("errors")]))
+                    fv = a.resolve(st, a.operand(st, frame, rv["ops"][tsf.index("failures")]))
+                    if st.mon.get("tc") is not None:
+                        suites.setdefault(st.mon.get("tc"), set()).add((ai.fmt_val(ev), ai.fmt_val(fv)))
+                    else:
+                        suites.setdefault("<no case>", set()).add((ai.fmt_val(ev), ai.fmt_val(fv)))
 
             def ret(self, a, st, v):
                 outs.append((v, st.mon))
@@ -532,16 +486,23 @@ def reporter_folds(ctx, cr):
                     e, fl = bool(mon.get("any_err")), bool(mon.get("any_fail"))
                     exp = 5 if e else ((19 if init != 5 else 5) if fl else init)
                     if c != ("int", exp):
-                        bad.append("some file errored=%s, some file failed=%s, init=%d gives %s, expected %d" % (e, fl, init, ai.fmt_val(c), exp))
+                        bad.append("some case errored=%s, some case failed=%s, init=%d gives %s, expected %d" % (e, fl, init, ai.fmt_val(c), exp))
             ctx.ob(rule, "%s:JunitReporter::report:init=%d" % (rule, init), not bad and n >= 3, "; ".join(sorted(set(bad))[:3]) or "%d Ok paths" % n, fn=cr.fns[key])
         except ai.Undecided as e:
             ctx.ob(rule, "%s:JunitReporter::report:init=%d" % (rule, init), False, "undecided %s" % e, fn=cr.fns[key])
+    spec = {"Pass": ("0", "0"), "Skip": ("0", "0"), "Fail": ("0", "1"), "Error": ("1", "0"), "<no case>": ("0", "0")}
+    for n_, exp in spec.items():
+        ctx.ob(rule, "%s:JunitReporter::report::closure:%s" % (rule, n_), suites.get(n_) == {exp},
+               "a file whose only test case is %s must give the suite (errors, failures) = %s, got %s" % (n_, exp, sorted(suites.get(n_, set()))), fn=cr.fns[key])
 
 
 def structured_parse_closure(ctx, cr):
-    """StructuredEvaluator::evaluate's parsing closure: a rules file that does not parse sets the error code"""
+    """StructuredEvaluator::evaluate: a rules file that does not parse makes the evaluator's exit code 5 BEFORE it is handed to the
+    reporter (whose own fold, decided above for init=5, keeps it non-zero).  Decided on `evaluate` itself with its per-file closures
+    interpreted as the loops they stand for, so the rule does not depend on whether the parse step is a try_fold closure or a `for`
+    body: at every construction of a reporter the exit_code operand is 5 iff a parse error was observed on that path."""
     rule = "R-C06-folds"
-    key = "commands::reporters::validate::structured::StructuredEvaluator::evaluate::{closure#0}"
+    key = "commands::reporters::validate::structured::StructuredEvaluator::evaluate"
     ADT = "commands::reporters::validate::structured::StructuredEvaluator"
     if key not in cr.fns or ADT not in cr.adts:
         ctx.lost(rule, rule + ":StructuredEvaluator::evaluate::closure", key)
@@ -553,33 +514,53 @@ def structured_parse_closure(ctx, cr):
     idx = fs.index("exit_code")
     fields = [("sym", "F%d" % i) for i in range(len(fs))]
     fields[idx] = ("int", 0)
-    outs = []
+    seen = []
 
     class H(CodeHooks):
-        def ret(self, a, st, v):
-            outs.append((v, st.mon, a.deep(st, st.ext.get("SELF"))))
+        def inline(self, a, st, k, fn):
+            return k.startswith(key + "::{closure") or CodeHooks.inline(self, a, st, k, fn)
+
+        def extra_call(self, a, st, term, callee, args):
+            decl = M.norm_path(callee.get("decl", ""))
+            mon = st.mon
+            if decl == "std::iter::Iterator::next" and term.get("to") is not None:
+                site = a.site(st)
+                if mon.get("it:" + site):
+                    return [(("enum", ai.OPTION, 0, ()), mon)]
+                return [(("enum", ai.OPTION, 1, (a.sym(st, site + ":item"),)), mon.set(**{"it:" + site: 1})), (("enum", ai.OPTION, 0, ()), mon)]
+            return CodeHooks.extra_call(self, a, st, term, callee, args)
+
+        def stmt(self, a, st, frame, s_):
+            rv = s_.get("rv")
+            if rv and rv.get("r") == "agg" and rv.get("ak") == "adt" and frame is st.frames[0]:
+                ad = cr.adts.get(rv.get("adt"))
+                if ad and str(rv.get("adt")).endswith("Reporter"):
+                    fl = [x["name"] for x in ad["variants"][rv.get("vi", 0)]["fields"]]
+                    if "exit_code" in fl:
+                        v = a.resolve(st, a.operand(st, frame, rv["ops"][fl.index("exit_code")]))
+                        seen.append((rv["adt"].split("::")[-1], tuple(sorted(st.mon.get("parse", frozenset()))), v))
     h = H(cr, "validate")
-    a = ai.AI(cr, h)
-    env = ("closure", key, (("ref", ("X", "SELFREF"), ()),))
+    a = ai.AI(cr, h, max_states=600000)
     try:
-        a.run(key, args=[("ref", ("X", "ENV"), ()), ("sym", "ACC"), ("sym", "ITEM")], mon=Mon(),
-              ext={"ENV": env, "SELFREF": ("ref", ("X", "SELF"), ()), "SELF": ("enum", ADT, 0, tuple(fields))})
+        a.run(key, args=[("ref", ("X", "SELF"), ())], mon=Mon(), ext={"SELF": ("enum", ADT, 0, tuple(fields))})
     except ai.Undecided as e:
         ctx.ob(rule, rule + ":StructuredEvaluator::evaluate::closure", False, "undecided %s" % e, fn=cr.fns[key])
         return
     ctx.states += a.n_states
     bad = []
-    rows = {}
-    for v, mon, selfv in outs:
-        if not (v[0] == "enum" and v[1] == ai.RESULT and v[2] == 0):
-            continue
-        p = tuple(sorted(mon.get("parse", frozenset())))
-        code = selfv[3][idx] if selfv and selfv[0] == "enum" else None
-        rows.setdefault(p, set()).add(code)
-    ok = rows.get(("Err",)) == {("int", 5)} and rows.get(("Some",)) == {("int", 0)} and rows.get(("None",)) == {("int", 0)}
-    ctx.ob(rule, rule + ":StructuredEvaluator::evaluate::closure", ok,
-           "parse Err must set exit_code=5 (others leave it): %s" % {k: sorted(map(ai.fmt_val, v)) for k, v in rows.items()}, fn=cr.fns[key],
-           sample={"rows": {str(k): sorted(map(ai.fmt_val, v)) for k, v in rows.items()}})
+    saw_err = saw_ok = False
+    for rep, parse, v in seen:
+        if "Err" in parse:
+            saw_err = True
+            if v != ("int", 5):
+                bad.append("%s is built with exit_code %s although a rules file failed to parse on this path" % (rep, ai.fmt_val(v)))
+        else:
+            saw_ok = True
+            if v != ("int", 0):
+                bad.append("%s is built with exit_code %s although every rules file parsed" % (rep, ai.fmt_val(v)))
+    ctx.ob(rule, rule + ":StructuredEvaluator::evaluate::closure", not bad and saw_err and saw_ok,
+           "; ".join(sorted(set(bad))[:3]) or "%d reporter constructions: exit_code is 5 iff a parse error was observed" % len(seen), fn=cr.fns[key],
+           sample={"constructions": len(seen)})
 
 
 def run(ctx):
